@@ -6,7 +6,7 @@
 (* by option; a derived service exposes its own functions followed by the     *)
 (* inherited ones; the ideal descriptor graph mirrors the IDL and the same    *)
 (* graph with one alias dropped does not.  Every state is emitted as a case.  *)
-EXTENDS TDesc, Json
+EXTENDS TMirror, Json
 
 VARIABLES chain, target, ext, o
 vars == <<chain, target, ext, o>>
